@@ -208,6 +208,9 @@ func (vc *VC) execFunc(fn *ssa.Function, args []Val, st *State, reach string, de
 		}
 	}
 	fr.callPos = vc.nextCallPos
+	if contract == nil && depth > 0 && len(fr.loops) > 0 {
+		fr.adoptUnrollAtEntry()
+	}
 	if nested {
 		for _, l := range fr.loops {
 			l.unroll = 0
